@@ -561,9 +561,9 @@ def reverse_axis(x, axis):
 def grad_np_cumsum(ans, x, axis=None):
     def vjp(g):
         if axis:
-            return reverse_axis(anp.cumsum(reverse_axis(g, axis), axis), axis)
+            return anp.reshape(reverse_axis(anp.cumsum(reverse_axis(g, axis), axis), axis), anp.shape(x))
         else:
-            return anp.reshape(anp.cumsum(g[::-1], axis)[::-1], x.shape)
+            return anp.reshape(anp.cumsum(g[::-1], axis)[::-1], anp.shape(x))
 
     return vjp
 
